@@ -11,8 +11,11 @@ cd $WT && git checkout -q --detach $(git -C /repo rev-parse HEAD) && git checkou
 LOG=/tmp/verify/$NAME.log; : > $LOG
 if ! git apply --check $SRC/patch.diff 2>>$LOG; then echo "$NAME: PATCH DOES NOT APPLY"; exit 1; fi
 git apply $SRC/patch.diff
-suite=$(cargo test --offline --no-fail-fast 2>>$LOG | grep -E "^test result" | tr '\n' ' ')
-fails=$(echo "$suite" | grep -oE "[0-9]+ failed" | awk '{s+=$1} END{print s+0}')
+sout=$(cargo test --offline --no-fail-fast 2>>$LOG)
+suite=$(echo "$sout" | grep -E "^test result" | tr '\n' ' ')
+# failing tests by name; the baseline excludes the flaky ops::delay::tests::shared_smoke (see /root/.vp/BASELINE.json)
+fails=$(echo "$sout" | grep -E "^test .* FAILED" | grep -v "delay::tests::shared_smoke" | wc -l)
+echo "$sout" | grep -E "^test .* FAILED" >> $LOG
 mkdir -p tests && cp $SRC/demo.rs tests/demo.rs
 with=$(cargo test --offline --test demo 2>>$LOG | grep -E "^test result" | tr '\n' ' ')
 git checkout -q -- src
